@@ -1,3 +1,4 @@
+import collections.abc
 import inspect
 import typing
 from typing import Any, Dict, Optional, Tuple, Type, TypeVar
@@ -14,7 +15,18 @@ def is_iterable(t: Type) -> bool:
 
 def _is_iterable_direct(t: Type) -> bool:
     "Is this type iterable?"
-    return getattr(t, "_name", None) == "Iterable" or getattr(t, "__name__", None) == "Iterable"
+    if getattr(t, "_name", None) == "Iterable" or getattr(t, "__name__", None) == "Iterable":
+        return True
+
+    # The standard containers with one type parameter (`List[X]`, `list[X]`, `Sequence[X]`,
+    # `Set[X]`, ...) are iterables of that parameter.
+    origin = get_origin(t)
+    return (
+        isinstance(origin, type)
+        and origin.__module__ in ("builtins", "collections.abc")
+        and issubclass(origin, collections.abc.Iterable)
+        and len(get_args(t)) == 1
+    )
 
 
 def get_inherited(t: Type) -> Type:
